@@ -117,6 +117,7 @@ def _forms(dim, lam, mu, A, coef_fun, scheme="mass"):
         x, y, z = field.Get_coords()
         return coef_fun(np.asarray(x), np.asarray(y), np.asarray(z))
     bvec = np.array([1.0, 0.5, -0.75])[:dim]
+    Wc = (np.arange(1.0, dim * dim + 1).reshape(dim, dim) * np.array([1.0, -2.0, 0.5])[:dim]) + np.triu(np.ones((dim, dim)), 1)
     out = {
         "mass": (1, lambda u, v: u.dot(v), lambda g, f: Operators.Bilinear.UV(g, 1.0, 1, mt)),
         "mass_coef": (1, lambda u, v: 2.5 * u.dot(v), lambda g, f: Operators.Bilinear.UV(g, 2.5, 1, mt)),
@@ -136,6 +137,11 @@ def _forms(dim, lam, mu, A, coef_fun, scheme="mass"):
         "convection": (1, lambda u, v: (u.grad.dot(bvec)) * v, lambda g, f: _quad_convection(g, bvec, mt, 1)),
         "convection_diffusion": (1, lambda u, v: 0.7 * u.grad.dot(v.grad) + v * (u.grad.dot(bvec)), lambda g, f: 0.7 * np.asarray(Operators.Bilinear.GradUGradV(g, 1.0, mt)) + _quad_convection(g, bvec, mt, 1)),
         "vector_convection": (dim, lambda u, v: (u.grad @ bvec).dot(v), lambda g, f: _quad_convection(g, bvec, mt, dim)),
+        # a constant non-symmetric matrix acting on the field itself (gyroscopic / Coriolis-like coupling), on either side of the Field object and of its value
+        "vector_coupling": (dim, lambda u, v: (Wc @ u).dot(v), lambda g, f: _quad_coupling(g, Wc, mt)),
+        "vector_coupling_value": (dim, lambda u, v: (Wc @ u()).dot(v()), lambda g, f: _quad_coupling(g, Wc, mt)),
+        "vector_coupling_right": (dim, lambda u, v: (u @ Wc).dot(v), lambda g, f: _quad_coupling(g, Wc.T, mt)),
+        "vector_coupling_test": (dim, lambda u, v: u.dot(Wc @ v), lambda g, f: _quad_coupling(g, Wc.T, mt)),
     }
     return out
 
@@ -154,6 +160,14 @@ def _quad_convection(g, b, mt, dof_n):
     for c in range(dof_n):
         K[:, c::dof_n, c::dof_n] = Ks
     return K
+
+
+def _quad_coupling(g, W, mt):
+    """K[e, (i, a), (j, b)] = sum_p wJ N_i N_j W[a, b]: the form (W u) . v with test component a and trial component b, dofs interleaved (node-major)."""
+    N = np.asarray(g.Get_N_pg(mt))[:, 0, :]
+    wJ = np.asarray(g.Get_weightedJacobian_e_pg(mt))
+    M = np.einsum("ep,pi,pj->eij", wJ, N, N)
+    return np.einsum("eij,ab->eiajb", M, W).reshape(M.shape[0], N.shape[1] * W.shape[0], N.shape[1] * W.shape[0])
 
 
 def _geometry(et):
@@ -333,6 +347,69 @@ def _replay_evaluate():
         return dict(confirmed=True, raised=repr(e)[:300])
 
 
+def _replay_evaluate_exception():
+    try:
+        from EasyFEA.FEM import Field, BiLinearForm, Sym_Grad
+        mesh = _geometry("QUAD4")
+        g = mesh.groupElem
+        fld = Field(g, 2)
+        form = BiLinearForm(lambda u, v: Sym_Grad(u).ddot(Sym_Grad(v)))
+        K0 = np.asarray(form.Integrate_e(fld))
+        U = np.arange(g.Ncoords * 2, dtype=float)
+
+        def wrong(u):
+            raise ValueError("mistake in the user's post-processing function")
+        out = {}
+        for nm, f in (("raises", wrong), ("returns a plain array", lambda u: np.asarray(Sym_Grad(u)))):
+            try:
+                fld.Evaluate_e(f, U)
+            except (ValueError, AssertionError):
+                pass
+            K1 = np.asarray(form.Integrate_e(fld))
+            out[nm] = float(np.abs(K1 - K0).max() / np.abs(K0).max())
+        return dict(confirmed=max(out.values()) > 1e-12, rel_change_of_K_e=out)
+    except Exception as e:
+        return dict(confirmed=False, raised=repr(e)[:300])
+
+
+def ob_evaluate_exception():
+    """Field.Evaluate_e leaves the field as it found it on EXCEPTIONAL exits too: the user function (and the type check of its result) run inside a `try` whose `finally`
+    lowers the evaluation-mode flag. Otherwise a post-processing function that raises once (caught by the user, or in an interactive session) silently changes every form
+    integrated afterwards on that field. AST contract + the native sequence."""
+    import ast as _ast
+    fn = extract.get(FD, "Field.Evaluate_e")
+    parents = {}
+    for nd in _ast.walk(fn.node):
+        for ch in _ast.iter_child_nodes(nd):
+            parents[ch] = nd
+    calls = [nd for nd in _ast.walk(fn.node) if isinstance(nd, _ast.Call) and isinstance(nd.func, _ast.Name) and nd.func.id == "function"]
+    if not calls:
+        raise Unsupported("Field.Evaluate_e no longer calls `function`: contract to be rewritten")
+
+    def lowers(stmts):
+        return any(isinstance(x, _ast.Assign) and _ast.unparse(x.targets[0]) == "self.__is_currently_evaluated" and _ast.unparse(x.value) == "False" for st in stmts for x in _ast.walk(st))
+    for c in calls:
+        nd, ok = c, False
+        while nd in parents:
+            par = parents[nd]
+            if isinstance(par, _ast.Try) and nd in par.body and lowers(par.finalbody):
+                ok = True
+                break
+            nd = par
+        raised_before = [x for x in _ast.walk(fn.node) if isinstance(x, _ast.Assign) and _ast.unparse(x.targets[0]) == "self.__is_currently_evaluated" and _ast.unparse(x.value) == "True" and x.lineno < c.lineno]
+        if raised_before and not ok:
+            r = _replay_evaluate_exception()
+            raise Refuted("Field.Evaluate_e raises the evaluation-mode flag and calls the user function outside any try/finally lowering it: a function that raises leaves the field in evaluation mode"
+                          + (f"; natively, the element matrices of a form integrated afterwards change by {r.get('rel_change_of_K_e')}" if r.get("confirmed") else ""),
+                          cex=dict(sequence=["Integrate_e", "Evaluate_e(function that raises) caught", "Integrate_e"]), signature="evaluate:exception", replay=r)
+    r = _replay_evaluate_exception()
+    if r.get("confirmed"):
+        raise Refuted(f"Integrate_e changes after a Field.Evaluate_e whose function failed: {r}", signature="evaluate:exception", replay=r)
+    if "raised" in r:
+        raise Unsupported(f"native sequence failed: {r}")
+    return Verdict(DISCHARGED, backend="AST structure + native run", detail=str(r))
+
+
 def ob_evaluate_sequence(et):
     """run-time: Integrate_e gives the same element matrices before and after post-processing calls on the same field."""
     r = _replay_evaluate()
@@ -402,39 +479,62 @@ def ob_simu(physics, et, algo):
     return Verdict(DISCHARGED, backend="native float run of both simulations (1e-10)", detail=f"rel {worst:.1e}")
 
 
-def ob_field_consistent(et):
-    """a Field means the same tensor in its two modes: the combination sum_i U_i * expr(basis function i) equals expr evaluated on the dof values U, for the field, its gradient,
-    (grad u) b and the symmetric gradient (vector fields; every expression is linear in u)."""
+def ob_field_consistent(et, dof_n=None):
+    """a Field means the same tensor in its two modes: the combination sum_i U_i * expr(basis function i) equals expr evaluated on the dof values U, for the field's gradient,
+    (grad u) b and the symmetric gradient (square gradients only; every expression is linear in u). dof_n: number of components (default: the dimension of the elements;
+    1 = scalar field, whose gradient is a vector in both modes)."""
     from EasyFEA.FEM import Field
     from EasyFEA.FEM._utils import MatrixType
     from EasyFEA.FEM._linalg import Transpose
     mesh = _geometry(et)
     g = mesh.groupElem
     dim = g.dim
-    fld = Field(g, dim, MatrixType.mass)
+    nc = dim if dof_n is None else dof_n
+    fld = Field(g, nc, MatrixType.mass)
     rng = np.random.default_rng(3)
-    U = rng.normal(size=mesh.Nn * dim)
+    U = rng.normal(size=mesh.Nn * nc)
     b = np.array([1.0, 0.5, -0.75])[:dim]
-    # (the field VALUE has no evaluated mode -- Field.Interpolate serves it -- so only gradient expressions are compared)
-    exprs = {"grad u": lambda u: u.grad, "(grad u) b": lambda u: u.grad @ b, "grad u + grad u'": lambda u: u.grad + Transpose(u.grad)}
+    exprs = {"grad u": lambda u: u.grad, "(grad u) b": lambda u: u.grad @ b, "u": lambda u: u(), "3 u": lambda u: 3.0 * u}
+    if nc == dim:
+        exprs["grad u + grad u'"] = lambda u: u.grad + Transpose(u.grad)
+    # independent reference for the plain gradient: d u_c / d x_j from the shape-function derivatives
+    dN = np.asarray(g.Get_dN_e_pg(MatrixType.mass))
+    Ue = U.reshape(-1, nc)[np.asarray(g.connect)]
+    G = np.einsum("epjn,enc->epcj", dN, Ue)
+    Nv = np.einsum("pn,enc->epc", np.asarray(g.Get_N_pg(MatrixType.mass))[:, 0, :], Ue)
+    ref = {"grad u": G[:, :, 0, :] if nc == 1 else G, "(grad u) b": (G @ b)[:, :, 0] if nc == 1 else G @ b, "u": Nv, "3 u": 3.0 * Nv}
     n = 0
     for nm, ex in exprs.items():
-        ev = np.asarray(fld.Evaluate_e(ex, U, returnMeanValues=False))
-        acc = np.zeros_like(ev)
+        try:
+            ev = np.asarray(fld.Evaluate_e(ex, U, returnMeanValues=False))
+        except Exception as exn:
+            raise Refuted(f"{et}, field with {nc} component(s): `{nm}` evaluated on dof values raises {type(exn).__name__}: {exn}", cex=dict(expression=nm, dof_n=nc),
+                          signature=f"field:consistent:{nm}:{nc}", replay=dict(confirmed=True))
+        acc = None
         for i in range(g.nPe):
-            for c in range(dim):
+            for c in range(nc):
                 fld._Set_current_active_node(i)
                 fld._Set_current_active_dof(c)
                 gb = np.asarray(ex(fld))
-                w = U.reshape(-1, dim)[np.asarray(g.connect)[:, i], c]
-                acc = acc + gb * w.reshape((-1,) + (1,) * (gb.ndim - 1))
+                w = U.reshape(-1, nc)[np.asarray(g.connect)[:, i], c]
+                term = gb * w.reshape((-1,) + (1,) * (gb.ndim - 1))
+                acc = term if acc is None else acc + term
         n += 1
+        if nm in ref and acc.shape[0] == 1 and ref[nm].shape[0] != 1 and acc.shape[1:] == ref[nm].shape[1:]:
+            acc = np.broadcast_to(acc, ref[nm].shape)
+        if nm in ref and (acc.shape != ref[nm].shape or np.abs(acc - ref[nm]).max() > 1e-12 * np.abs(ref[nm]).max()):
+            raise Refuted(f"{et}, field with {nc} component(s): `{nm}` written on the basis functions is not d u_c / d x_j (shape {acc.shape} against {ref[nm].shape})", cex=dict(expression=nm, dof_n=nc),
+                          signature=f"field:basis:{nm}:{nc}", replay=dict(confirmed=True))
+        if ev.shape != acc.shape:
+            raise Refuted(f"{et}, field with {nc} component(s): `{nm}` has shape {acc.shape} on the basis functions and {ev.shape} once evaluated on the dof values "
+                          f"(evaluated values {np.round(ev[0, 0].ravel(), 4).tolist()} against {np.round(acc[0, 0].ravel(), 4).tolist()}): a form and its post-processing do not mean the same tensor",
+                          cex=dict(expression=nm, dof_n=nc), signature=f"field:consistent:{nm}:{nc}", replay=dict(confirmed=True))
         e = float(np.abs(ev - acc).max() / (np.abs(ev).max() + 1e-30))
         if e > 1e-12:
-            tr = ev.ndim == 4 and np.abs(ev - acc.transpose(0, 1, 3, 2)).max() < 1e-12 * np.abs(ev).max()
+            tr = ev.ndim == 4 and ev.shape[-1] == ev.shape[-2] and np.abs(ev - acc.transpose(0, 1, 3, 2)).max() < 1e-12 * np.abs(ev).max()
             raise Refuted(f"{et}: `{nm}` written on the basis functions and combined with the dof values differs from the same expression evaluated on the dof values by {e:.3e}"
-                          + (" (it is its transpose)" if tr else "") + ": a form and its post-processing do not mean the same tensor", cex=dict(expression=nm), signature=f"field:consistent:{nm}",
-                          replay=dict(confirmed=True, rel_err=e))
+                          + (" (it is its transpose)" if tr else "") + ": a form and its post-processing do not mean the same tensor", cex=dict(expression=nm, dof_n=nc),
+                          signature=f"field:consistent:{nm}" + ("" if dof_n is None else f":{nc}"), replay=dict(confirmed=True, rel_err=e))
     return Verdict(DISCHARGED, backend="native run", sub=n)
 
 
@@ -512,7 +612,7 @@ def build(tier, seed):
         obs.append(Ob(f"C13.assemble.index.{kind}", ob_assemble_index, (kind,), "P", (f"{FP}::{cls}.Assemble",),
                       clause="values paired with rows_e/columns_e (bilinear) or assembly_e and column 0 (linear); shape (Ndof,Ndof) / (Ndof,1)"))
     types = ["TRI3", "QUAD4", "TRI6", "TETRA4"] if tier == "quick" else ["SEG3", "TRI3", "TRI6", "TRI10", "QUAD4", "QUAD8", "QUAD9", "TETRA4", "TETRA10", "HEXA8", "PRISM6"]
-    names = ["mass", "mass_coef", "mass_product", "mass_product_rev", "convection", "convection_diffusion", "vector_convection", "grad", "grad_A", "grad_x", "elastic", "elastic_T", "elastic_transpose", "vector_mass", "vector_mass_rho"]
+    names = ["mass", "mass_coef", "mass_product", "mass_product_rev", "convection", "convection_diffusion", "vector_convection", "vector_coupling", "vector_coupling_value", "vector_coupling_right", "vector_coupling_test", "grad", "grad_A", "grad_x", "elastic", "elastic_T", "elastic_transpose", "vector_mass", "vector_mass_rho"]
     for et in types:
         dim = common.elem_infos(et)[2]
         for nm in names:
@@ -550,7 +650,11 @@ def build(tier, seed):
     for et in ("TRI3", "QUAD4", "TETRA4"):
         obs.append(Ob(f"C13.field.consistent.{et}", ob_field_consistent, (et,), "X", (f"{FD}::Field.grad", f"{FD}::Field.__call__", f"{FD}::Field.Evaluate_e"), bound="2-element patch, one random state",
                       clause="sum_i U_i expr(basis_i) == expr(evaluated field) for grad u, (grad u) b, grad u + grad u'", timeout=300))
+    for et, nc in (("TRI3", 1), ("QUAD4", 1), ("TETRA4", 1), ("SEG2", 1), ("TETRA4", 2), ("HEXA8", 2)):
+        obs.append(Ob(f"C13.field.consistent.{et}.{nc}c", ob_field_consistent, (et, nc), "X", (f"{FD}::Field.grad", f"{FD}::Field.Evaluate_e"), bound="2-element patch, one random state",
+                      clause="scalar fields and fields whose number of components differs from the dimension: grad u means d u_c / d x_j in both modes", timeout=300))
     obs.append(Ob("C13.evaluate.frame", ob_evaluate_frame, (), "E", (f"{FD}::Field.Evaluate_e",), clause="Evaluate_e restores the field's mode on every normal exit"))
+    obs.append(Ob("C13.evaluate.exception", ob_evaluate_exception, (), "E", (f"{FD}::Field.Evaluate_e",), clause="Evaluate_e restores the field's mode on exceptional exits of the user function too"))
     obs.append(Ob("C13.evaluate.sequence", ob_evaluate_sequence, ("QUAD4",), "X", (f"{FD}::Field.Evaluate_e", f"{FP}::BiLinearForm.Integrate_e"), bound="one 5-call sequence on one field",
                   clause="post-processing a field does not change what forms integrate afterwards", timeout=120))
     obs.append(Ob("canary.assemble.index", ob_assemble_index, ("bilinear", True), "P", expect=REFUTED))
